@@ -52,9 +52,14 @@ def duration_shape(ctx, comps, nd, frac_on, nfrac, fsep):
             frac_num = fv
         text += {"m": "M"}.get(c, c)
     st, r = exc_name(lambda: P.parse(text))
-    ctx.claim("accepted", st == "ok")
     if st != "ok":
-        ctx.observe("exc", r)
+        # only numbers too large to represent may be rejected, and then with a ValueError
+        whole = 0
+        for c, v in vals.items():
+            whole = whole + v * {"Y": 365 * 86400, "M": 30 * 86400, "W": 7 * 86400, "D": 86400, "H": 3600, "m": 60, "S": 1}[c]
+        ctx.claim("rejected only when the value does not fit a timedelta", whole >= 999999999 * 86400)
+        ctx.claim("with a ValueError", r in ("ParserError", "ValueError"))
+        ctx.observe("exc", "ValueError")
         return
     ctx.claim("type", isinstance(r, P.Duration))
     ctx.claim("years and months as given", AND(r.years == vals.get("Y", 0), r.months == vals.get("M", 0)))
